@@ -63,7 +63,7 @@ Proof. vm_compute. reflexivity. Qed.
 (* non-vacuity: the tables are not empty (69 fields, 17 structs with methods ...) *)
 Example C19_static_tables_nonempty :
   (50 <= List.length foot_fields)%nat /\ (200 <= List.length foot_methods)%nat /\ List.length foot_accessors = 11%nat /\
-  (25 <= List.length foot_pkgvars)%nat /\ List.length foot_shared_edges = 12%nat /\
+  (25 <= List.length foot_pkgvars)%nat /\ List.length foot_shared_edges = 17%nat /\
   method_writes "collection.(*list_).AppendValue"%string = Some ["collection.list_.values_"%string] /\
   method_writes "agent.(*collator_).compareArrays"%string = Some ["agent.collator_.depth_"%string] /\
   method_writes "agent.(*collator_).RankValues"%string = Some [].
